@@ -174,4 +174,10 @@ PROPS = {
                 explanation='clean on block documents around one unwrap-block element with k = 0..6 lines between its tags (indentation and line text '
                             'symbolic, blank inner lines, nested ready / pending default elements): for k >= 2 the surviving non-blank lines are exactly '
                             'the input minus tag lines and wrapper lines; for k < 2 the output is byte-identical.'),
+    'C06': dict(jobs=props_pipe.c06_jobs, tv=('front', 'pipe'), assumptions=PIPE_ASSUME + [
+                    'the command-line clause (no target option => empty set; clap defaults) is decided under C20, not here'],
+                explanation='clean on one-element probes: the target set (0..3 strings of <= 3 symbolic bytes, incl. the empty string) and the `name` value are '
+                            'symbolic, ready <=> byte-for-byte membership (prefix / superstring / case variants are inside the same query); valueless or missing '
+                            'name; `skip` as a bare attribute at every position among <= 3 attributes with symbolic separators, ready child still removed; '
+                            'the keywords inside quoted values; symbolic tag names vs. the two configured names.'),
 }
